@@ -98,7 +98,8 @@ PROOF_UNITS = {
     'C11': [('contracts.writers', 'NodeLinkData', (cls,), {}) for cls in ('DynGraph', 'DynDiGraph')],
     'C14': [('contracts.pure', 'AnnotatePaths', (), {}), ('contracts.pure', 'PathLength', (), {}), ('contracts.pure', 'PathDuration', (), {})],
     'C17': [('contracts.stats', k, (), {}) for k in ('EdgeContribution', 'NodeContribution', 'PairDensity', 'Coverage', 'NodePresence')]
-           + [('contracts.stats', 'InterEventTimes', (cls,), {'u': u}) for cls in ('DynGraph', 'DynDiGraph') for u in ('none', 'node')],
+           + [('contracts.stats', 'InterEventTimes', (cls,), {'u': u}) for cls in ('DynGraph', 'DynDiGraph') for u in ('none', 'node')]
+           + [('contracts.stats', 'InterEventTimes', ('DynDiGraph', f), {'u': u}) for f in ('inter_in_event_time_distribution', 'inter_out_event_time_distribution') for u in ('none', 'node')],
     'C06': [('contracts.slice', 'TimeSlice', (cls,), {'t_to': t}) for cls in ('DynGraph', 'DynDiGraph') for t in ('int', 'none')]
            + [('contracts.iters', 'InteractionsIter', ('DynGraph',), {'t': 'none'}), ('contracts.iters', 'OutInteractionsIter', ('DynDiGraph',), {'t': 'none'})]
            + [('contracts.ctor', 'Init', (cls,), {'edge_removal': e}) for cls in ('DynGraph', 'DynDiGraph') for e in ('default', 'given')],
